@@ -30,6 +30,15 @@ def go_env():
     return env
 
 
+# the extracted model is ordinary (not tail-recursive) recursion over byte lists: large stored bodies need a deep stack
+try:
+    import resource
+    _soft, _hard = resource.getrlimit(resource.RLIMIT_STACK)
+    resource.setrlimit(resource.RLIMIT_STACK, (_hard, _hard))
+except Exception:
+    pass
+
+
 def sh(cmd, cwd=None, env=None, timeout=3600, stdin=None):
     p = subprocess.run(cmd, cwd=cwd, env=env, capture_output=True, text=True, timeout=timeout,
                        shell=isinstance(cmd, str), input=stdin)
